@@ -58,24 +58,25 @@ structure StartRun where
 def sigIf (b : Bool) : List Ev := if b then [Ev.sig] else []
 
 /-- `for i, hook := range hooks { if err := hook(ctx); err != nil { return … } }`;
-    `met` is what `startObservability` left running, the listener does not exist yet. -/
+    `met` is what `startObservability` left running; the listener does not exist yet and
+    `router.Freeze()` has not been called yet. -/
 def startHooks (met : Bool) : Nat → Bool → List HB → StartRun
   | _, c, [] => ⟨[], .done, c⟩
   | i, c, .ok :: rest =>
     let r := startHooks met (i + 1) c rest
-    ⟨Ev.startIn i false met :: Ev.startOut i :: r.evs, r.out, r.cancelled⟩
-  | i, c, .err :: _ => ⟨[Ev.startIn i false met, Ev.startOut i], .failed, c⟩
-  | i, c, .panic :: _ => ⟨[Ev.startIn i false met, Ev.startOut i], .panicked, c⟩
-  | i, c, .block :: _ => ⟨Ev.startIn i false met :: (sigIf (!c) ++ [Ev.startOut i]), .failed, true⟩
+    ⟨Ev.startIn i false met false :: Ev.startOut i :: r.evs, r.out, r.cancelled⟩
+  | i, c, .err :: _ => ⟨[Ev.startIn i false met false, Ev.startOut i], .failed, c⟩
+  | i, c, .panic :: _ => ⟨[Ev.startIn i false met false, Ev.startOut i], .panicked, c⟩
+  | i, c, .block :: _ => ⟨Ev.startIn i false met false :: (sigIf (!c) ++ [Ev.startOut i]), .failed, true⟩
   | i, c, .cancelOk :: rest =>
     let r := startHooks met (i + 1) true rest
-    ⟨Ev.startIn i false met :: (sigIf (!c) ++ Ev.startOut i :: r.evs), r.out, r.cancelled⟩
+    ⟨Ev.startIn i false met false :: (sigIf (!c) ++ Ev.startOut i :: r.evs), r.out, r.cancelled⟩
 
-/-! ### executeReadyHooks (fire and forget, panics recovered) -/
+/-! ### executeReadyHooks (fire and forget, panics recovered); `Start` has frozen the router before `runServer` -/
 
 def readyHooks (app met : Bool) : Nat → List HB → List Ev
   | _, [] => []
-  | i, _ :: rest => Ev.ready i app met :: readyHooks app met (i + 1) rest
+  | i, _ :: rest => Ev.ready i app met true :: readyHooks app met (i + 1) rest
 
 /-! ### Reload: `reloadMu.Lock(); executeReloadHooks; Unlock` -/
 
